@@ -281,6 +281,32 @@ class HandleTypestate(Client):
 
     def _handle_call(self, call: ast.Call, ctx: Ctx) -> Optional[str]:
         f = call.func
+        if isinstance(f, ast.Name) and not ctx.scope.is_self(f):
+            # a bound method of the handle kept in a local (`seek, readline = self.file.seek, self.file.readline`): calling the
+            # local is the same access to the handle it was taken from
+            from ..flow import Flow
+            fl = getattr(ctx.func.node, "_flow", None)
+            if fl is None:
+                fl = ctx.func.node._flow = Flow(ctx.func.node)
+            try:
+                df = fl.single_def(f)
+            except Exception:
+                df = None
+            v = getattr(df, "value", None) if df is not None else None
+            idx = getattr(df, "index", None) if df is not None else None
+            if isinstance(v, (ast.Tuple, ast.List)) and idx and len(idx) == 1 and isinstance(idx[0], int) and idx[0] < len(v.elts):
+                v = v.elts[idx[0]]
+            elif idx:
+                v = None
+            if isinstance(v, ast.Attribute):
+                d0 = dotted(v.value)
+                if d0 and len(d0) == 2 and ctx.scope.is_self(ast.Name(id=d0[0], ctx=ast.Load())) and d0[1] in self.handles \
+                        and ctx.scope.cls is self.cls:
+                    if v.attr == "seek":
+                        return "seek"
+                    if v.attr in ("readline", "read", "readlines", "__next__", "read_byte"):
+                        return "read"
+            return None
         if not isinstance(f, ast.Attribute):
             return None
         d = dotted(f.value)
